@@ -664,6 +664,9 @@ func isObject(v Value) bool {
 	return false
 }
 
+// KeyOf: the identity of a value used as a key (a struct value built by the interpreted code: field by field).
+func KeyOf(v Value) string { return keyOf(v) }
+
 func keyOf(v Value) string {
 	switch x := v.(type) {
 	case Str:
